@@ -11,8 +11,9 @@ from ..src import AnalysisError, loc, norm, own_nodes
 
 OPS = "tdgl.finite_volume.operators"
 SOLVER = "tdgl.solver.solver"
-TECH = ("sibling agreement (from-scratch builder vs in-place refresh) by abstract interpretation of "
-        "MeshOperators on symbolic vector potentials; guard/baseline dataflow rule on TDGLSolver.update")
+TECH = ("sibling agreement builder vs in-place refresh by abstract interpretation on symbolic vector potentials (exact COO block algebra); "
+        "refresh discipline of TDGLSolver.update as predicates on 180 followed traces of the method; static dtype of refreshed operators; "
+        "who-may-call audit of set_link_exponents")
 
 EXACT_CMP = {"array_equal", "array_equiv"}
 TOLERANT_CMP = {"allclose", "isclose"}
